@@ -1023,8 +1023,10 @@ def gen_traj_big(r, tier):
 # ------------------------------------------------------------------ running average cases
 def runave_scenario(c, k):
     v = {"id": 0, "type": "z", "value": True}
-    extra = ["  runAve on", "  runAveLength %d" % c["L"], "  runAveStride %d" % c["stride"]]
-    conf = heredoc(["colvarsTrajFrequency 1"] + var_block(v, extra))
+
+    def mkconf(stride):
+        return heredoc(["colvarsTrajFrequency 1"] + var_block(v, ["  runAve on", "  runAveLength %d" % c["L"], "  runAveStride %d" % stride]))
+    conf = mkconf(c["stride"])
     seg = 0
     L = ["echo CASE %d" % k, "natoms 2", "temperature 300", "dt 1.0", "prefix c%ds%d" % (k, seg), "new"]
     if c["it0"]:
@@ -1038,6 +1040,8 @@ def runave_scenario(c, k):
         elif ev[0] == "restart":
             seg += 1
             f = "c%d_%d.state" % (k, seg)
+            if len(ev) > 1 and ev[1]:
+                conf = mkconf(ev[1])          # the resumed job uses another stride
             L += ["flush", "save %s %s" % (c.get("fmt", "text"), f), "prefix c%ds%d" % (k, seg), "fresh"] + conf + ["load %s" % f]
     L += ["flush", "echo END %d" % k]
     return L
@@ -1051,7 +1055,7 @@ def segments_of(c, carry=True):
     segs = []
     it = c["it0"]
     fileno = 0
-    cur = {"it_restart": it, "hist": [], "files": [0]}
+    cur = {"it_restart": it, "hist": [], "files": [0], "stride": c["stride"]}
     first, boundary = True, False
     for ev in c["events"]:
         if ev[0] == "step":
@@ -1067,12 +1071,13 @@ def segments_of(c, carry=True):
             fileno += 1
             rel = it - cur["it_restart"]
             t0 = cur["hist"][0][0] if cur["hist"] else None
-            if carry and c["L"] > 1 and t0 is not None and rel > t0 and rel % c["stride"] == 0:
+            newstride = ev[1] if len(ev) > 1 and ev[1] else cur["stride"]
+            if carry and c["L"] > 1 and t0 is not None and rel > t0 and rel % cur["stride"] == 0 and newstride == cur["stride"]:
                 cur["files"].append(fileno)       # same series, next file; the recomputed step is a repeated step
                 boundary = True
             else:
                 segs.append(cur)
-                cur = {"it_restart": it, "hist": [], "files": [fileno]}
+                cur = {"it_restart": it, "hist": [], "files": [fileno], "stride": newstride}
                 first, boundary = True, False
     segs.append(cur)
     return segs
@@ -1106,7 +1111,7 @@ def runave_oracle(L, stride, xs, tmax):
 def check_runave_case(run, c, k, impl_lines, scratch, model):
     segs = segments_of(c)
     replay = {"kind": "runave", "case": c}
-    lines = ["RUNAVE %d %d %d %d %s" % (c["L"], c["stride"], 0, len(s["hist"]), " ".join("%d %s" % (t, hx(x)) for t, it, x in s["hist"]))
+    lines = ["RUNAVE %d %d %d %d %s" % (c["L"], s["stride"], 0, len(s["hist"]), " ".join("%d %s" % (t, hx(x)) for t, it, x in s["hist"]))
              for s in segs]
     rc, mout, err = V.run_lines(model, lines)
     if rc != 0 or len(mout) != len(segs):
@@ -1119,9 +1124,9 @@ def check_runave_case(run, c, k, impl_lines, scratch, model):
             rows += parse_numfile(os.path.join(scratch, "c%ds%d.v0.runave.traj" % (k, fno)))[1]
         xs = dedup(s["hist"])
         tmax = max(xs) if xs else -1
-        orc = runave_oracle(c["L"], c["stride"], xs, tmax)
+        orc = runave_oracle(c["L"], s["stride"], xs, tmax)
         # ---- oracle: every written line is the window mean / sample stddev at the step it carries
-        if rows and s["it_restart"] and [st for st, _ in rows] == [t for t in sorted(orc) if t >= c["L"] * c["stride"]][:len(rows)]:
+        if rows and s["it_restart"] and [st for st, _ in rows] == [t for t in sorted(orc) if t >= c["L"] * s["stride"]][:len(rows)]:
             run.violation("runave:step-label", "the lines carry the steps %s counted from the last restart (step %d), not the "
                           "steps %s at which the values held" % ([st for st, _ in rows][:6], s["it_restart"],
                                                                   [st + s["it_restart"] for st, _ in rows][:6]), replay)
@@ -1130,12 +1135,12 @@ def check_runave_case(run, c, k, impl_lines, scratch, model):
             t = step - s["it_restart"]
             if t not in orc:
                 run.violation("runave:step", "a line carries step %d (relative %d), where no full window of %d samples with stride %d ends"
-                              % (step, t, c["L"], c["stride"]), replay)
+                              % (step, t, c["L"], s["stride"]), replay)
                 continue
             m, var = orc[t]
             run.dist("oracle:runave-line")
             if not close(vals[0], float(m), OTOL):
-                win = [float(xs[t - j * c["stride"]]) for j in range(c["L"])]
+                win = [float(xs[t - j * s["stride"]]) for j in range(c["L"])]
                 run.violation("runave:mean", "step %d: running average %r, mean of the last %d samples %s is %r"
                               % (step, vals[0], c["L"], win, float(m)), replay)
             elif var is not None and len(vals) > 1 and not close(vals[1], math.sqrt(var), OTOL):
@@ -1143,7 +1148,7 @@ def check_runave_case(run, c, k, impl_lines, scratch, model):
                               % (step, vals[1], math.sqrt(var)), replay)
         # lines must exist once the window is full (the value of relative step 0 is not sampled: the first
         # full window ends at relative step L*stride)
-        want_steps = [t + s["it_restart"] for t in sorted(orc) if t >= c["L"] * c["stride"]]
+        want_steps = [t + s["it_restart"] for t in sorted(orc) if t >= c["L"] * s["stride"]]
         got_steps = [st for st, _ in rows]
         if got_steps != want_steps and all((st - s["it_restart"]) in orc for st in got_steps):
             run.violation("runave:lines", "lines at steps %s, full windows end at steps %s" % (got_steps[:12], want_steps[:12]), replay)
@@ -1179,7 +1184,7 @@ def gen_runave_case(r, tier):
         if u < 0.08:
             events += [["boundary"], ["step", last]]
         elif u < 0.12:
-            events += [["restart"], ["step", last]]
+            events += [["restart", r.choice([None, None, 1, 2, 3])], ["step", last]]
         else:
             events.append(["step", V.dyadic(r, -8, 8, 3)])
     return {"kind": "runave", "L": L, "stride": stride, "it0": it0, "events": events, "fmt": r.choice(["text", "binary"])}
